@@ -78,6 +78,15 @@ def r1(run, ctx):
         raises = [n for n in ctx.live_nodes(f) if n.kind == 'stmt' and isinstance(n.ast, ast.Raise)
                   and 'ConflictError' in norm_text(n.ast)]
         run.check('R1', len(raises) >= 2, 'the refusal is the explicit ConflictError', f, a.ast)
+        # a refused request must not touch the slot (it belongs to the operation in flight)
+        for rz in raises:
+            after = cfg.reach(rz)
+            hit = [x for x in rel + reg if x.id in after]
+            run.check('R1', not hit, 'a refusal leaves the slot untouched', f, rz.ast,
+                      'a refused request passes through the release on its way out: it frees the '
+                      'slot that belongs to the operation still in flight, so the next request is '
+                      'admitted concurrently', path=ctx.path_text(f, cfg.path(rz, hit[0]) or [])
+                      if hit else None)
         # from the acquire every way out passes release or registration
         done = rel + reg
         have_arb = lambda e: True if norm_text(e) == 'arbiter is not None' else None
